@@ -107,7 +107,12 @@ macro_rules! field_impl {
             }
 
             pub fn set_bit(&mut self, bit: usize, to: bool) {
-                self.0.set_bit(bit, to);
+                // edit the canonical value, not its Montgomery representative,
+                // then reduce the result back into the field
+                let mut a = U256::from(*self);
+                if a.set_bit(bit, to) {
+                    *self = Self::new_mul_factor(a);
+                }
             }
 
             #[inline]
